@@ -417,7 +417,7 @@ package core
 //@ extern (github.com/robertkrimen/otto.Otto).Run
 //@   ghost-ensures ran && lastRunErr == result1
 //@   also-modifies ran, lastRunErr
-//@ extern (github.com/robertkrimen/otto.Otto).Compile
+//@ extern (*github.com/robertkrimen/otto.Otto).Compile
 //@   ghost-ensures lastCompileErr == result1
 //@   also-modifies lastCompileErr
 //@ extern (github.com/robertkrimen/otto.Otto).Set
